@@ -576,4 +576,333 @@ Section Inv.
   Definition IHf (f : nat) : Prop :=
     forall tpl depth ch ip s o, tpl_okP tpl -> chunk_okP ch -> SInv s -> OInv o ->
       post (run W wr wd f tpl ae depth ch ip s o).
+
+  Lemma new_state_inv c : ctx_ok c = true -> SInv (new_state c).
+  Proof. intros H. constructor; cbn; try reflexivity; [constructor|exact H]. Qed.
+
+  Lemma blocks_tl bs : blocks_okP bs -> blocks_okP (tl bs).
+  Proof. intros H. destruct bs; [exact H|]. inversion H; assumption. Qed.
+
+  Lemma forallb_tl {A} (g : A -> bool) l : forallb g l = true -> forallb g (tl l) = true.
+  Proof. destruct l; cbn; [auto|]. intros H. apply andb_prop in H. apply H. Qed.
+
+  Lemma forallb_cons_intro {A} (g : A -> bool) x l : g x = true -> forallb g l = true -> forallb g (x :: l) = true.
+  Proof. intros Hx Hl. cbn. rewrite Hx, Hl. reflexivity. Qed.
+
+  Ltac dm := match goal with
+    | |- post (match ?x with _ => _ end) => destruct x eqn:?
+    end.
+  Ltac nx IH Ht Hc := apply IH; [exact Ht | exact Hc | | ].
+  Ltac simple_case IH Ht Hc Ho :=
+    repeat dm; try exact I;
+    nx IH Ht Hc; [apply push_inv; [eassumption
+                         | first [reflexivity | eapply (wo_math Hw); eassumption | eapply (wo_negate Hw); eassumption]]
+        | exact Ho].
+  (* a nested run: obtain its postcondition from IH, then split on its result *)
+  Ltac nest IH Htpl Hch :=
+    match goal with
+    | |- post (match run _ _ _ ?f ?t _ ?d ?c ?i ?s ?o with _ => _ end) =>
+        let P := fresh "P" in
+        assert (P : post (run W wr wd f t ae d c i s o));
+        [apply IH; [exact Htpl | exact Hch | | ]
+        | let s' := fresh "sn" in let o' := fresh "on" in
+          destruct (run W wr wd f t ae d c i s o) as [s' o'| |]; try exact I; cbn [post] in P]
+    end.
+
+  Lemma step_inv f : IHf f -> IHf (S f).
+  Proof.
+    intros IH tpl depth ch ip s o Ht Hc Hs Ho.
+    assert (Hae : match ae with Some b => b | None => t_autoescape tpl end = true) by apply Ht.
+    cbn [run]. rewrite ?Hae.
+    destruct (nth_error ch ip) as [i|] eqn:Hi; [|split; assumption].
+    assert (Hiok : instr_ok ok i = true) by (eapply nth_error_forallb; [apply Hc|exact Hi]).
+    assert (Hbp : is_body_comp i = true -> body_pol).
+    { intros Hb. apply Hc. unfold has_body_comp. apply existsb_exists. exists i.
+      split; [eapply nth_error_In, Hi|exact Hb]. }
+    destruct i as [v | n | a | a |  |  |  |  | t |  | n | n | n | k | k | fl | fl | n | n | n | n | n | n | t | t | t | t |  |  | kv | kv | t | n |  |  |  |  |  |  |  |  |  |  |  |  |  |  |  |  |  |  |  |  |  | p | p]; cbn [instr_ok is_body_comp] in Hiok, Hbp; cbv beta iota.
+    - (* LoadConst *) nx IH Ht Hc; [apply push_inv; assumption|exact Ho].
+    - (* LoadName *) nx IH Ht Hc; [apply push_inv; [exact Hs|apply load_name_v_ok, Hs]|exact Ho].
+    - (* LoadAttr *)
+      destruct (pop1 s) as [[v s1]|] eqn:Hp; [|exact I]. destruct (pop1_inv _ _ _ Hp Hs) as [Hv Hs1].
+      repeat dm; try exact I;
+        (nx IH Ht Hc; [apply push_inv; [exact Hs1|first [reflexivity|apply attr_or_undef_ok, Hv]]|exact Ho]).
+    - (* LoadAttrOpt *)
+      destruct (pop1 s) as [[v s1]|] eqn:Hp; [|exact I]. destruct (pop1_inv _ _ _ Hp Hs) as [Hv Hs1].
+      repeat dm; try exact I;
+        (nx IH Ht Hc; [apply push_inv; [exact Hs1|first [reflexivity|apply attr_or_undef_ok, Hv]]|exact Ho]).
+    - (* BinarySubscript *)
+      destruct (pop2 s) as [[[val sub] s1]|] eqn:Hp; [|exact I].
+      destruct (pop2_inv _ _ _ _ Hp Hs) as (Hval & Hsub & Hs1).
+      destruct (subscript wd _ val sub) as [r|] eqn:E; [|exact I].
+      nx IH Ht Hc; [apply push_inv; [exact Hs1|eapply subscript_ok; eassumption]|exact Ho].
+    - (* BinarySubscriptOpt *)
+      destruct (pop2 s) as [[[val sub] s1]|] eqn:Hp; [|exact I].
+      destruct (pop2_inv _ _ _ _ Hp Hs) as (Hval & Hsub & Hs1).
+      destruct (subscript wd _ val sub) as [r|] eqn:E; [|exact I].
+      nx IH Ht Hc; [apply push_inv; [exact Hs1|eapply subscript_ok; eassumption]|exact Ho].
+    - (* Slice *)
+      destruct (stack s) as [|step [|stop [|start [|val t]]]] eqn:Est; try exact I.
+      pose proof (si_stack _ Hs) as Hst. rewrite Est in Hst. cbn [forallb] in Hst.
+      apply andb_prop in Hst; destruct Hst as [_ Hst]. apply andb_prop in Hst; destruct Hst as [_ Hst].
+      apply andb_prop in Hst; destruct Hst as [_ Hst]. apply andb_prop in Hst; destruct Hst as [Hval Hrest].
+      destruct (vm_slice _ val start stop step) as [r|] eqn:E; [|exact I].
+      assert (Hr : vok r = true) by (eapply vm_slice_ok; eassumption).
+      nx IH Ht Hc; [apply SInv_upd_stack; [exact Hs|apply forallb_cons_intro; assumption]|exact Ho].
+    - (* SliceOpt *)
+      destruct (stack s) as [|step [|stop [|start [|val t]]]] eqn:Est; try exact I.
+      pose proof (si_stack _ Hs) as Hst. rewrite Est in Hst. cbn [forallb] in Hst.
+      apply andb_prop in Hst; destruct Hst as [_ Hst]. apply andb_prop in Hst; destruct Hst as [_ Hst].
+      apply andb_prop in Hst; destruct Hst as [_ Hst]. apply andb_prop in Hst; destruct Hst as [Hval Hrest].
+      destruct (vm_slice _ val start stop step) as [r|] eqn:E; [|exact I].
+      assert (Hr : vok r = true) by (eapply vm_slice_ok; eassumption).
+      nx IH Ht Hc; [apply SInv_upd_stack; [exact Hs|apply forallb_cons_intro; assumption]|exact Ho].
+    - (* WriteText *)
+      destruct (emit W wr s o t) as [[s1 o1]|] eqn:E; [|exact I].
+      destruct (emit_inv _ _ _ _ _ E Hs Ho Hiok) as [Hs1 Ho1]. nx IH Ht Hc; assumption.
+    - (* WriteTop *)
+      destruct (pop1 s) as [[v s1]|] eqn:Hp; [|exact I]. destruct (pop1_inv _ _ _ Hp Hs) as [Hv Hs1].
+      destruct (is_undefined v); [exact I|].
+      destruct (write_value W wr wd true s1 o v) as [[s2 o2]|] eqn:E; [|exact I].
+      destruct (write_value_inv _ _ _ _ _ E Hs1 Ho Hv) as [Hs2 Ho2]. nx IH Ht Hc; assumption.
+    - (* SetI *)
+      destruct (pop1 s) as [[v s1]|] eqn:Hp; [|exact I]. destruct (pop1_inv _ _ _ Hp Hs) as [Hv Hs1].
+      nx IH Ht Hc; [apply store_local_inv; assumption|exact Ho].
+    - (* SetGlobal *)
+      destruct (pop1 s) as [[v s1]|] eqn:Hp; [|exact I]. destruct (pop1_inv _ _ _ Hp Hs) as [Hv Hs1].
+      nx IH Ht Hc; [apply store_global_inv; assumption|exact Ho].
+    - (* Include *)
+      destruct (assoc_get (w_templates wd) n) as [t2|] eqn:Et; [|exact I].
+      pose proof (wo_templates Hw _ _ Et) as Ht2.
+      match goal with |- context [run W wr wd f t2 ae depth (t_chunk t2) 0 ?inc o] => set (inc0 := inc) end.
+      assert (Hinc : SInv inc0).
+      { constructor; cbn; try reflexivity; [constructor|apply scope_of_ok, Hs|apply Hs]. }
+      destruct (caps s) as [|c ct] eqn:Ec.
+      + nest IH Ht2 (proj1 (proj2 Ht2)); [exact Hinc|exact Ho|]. destruct P as [_ Ho1]. nx IH Ht Hc; assumption.
+      + pose proof (si_caps _ Hs) as Hcaps. rewrite Ec in Hcaps. cbn [forallb] in Hcaps.
+        apply andb_prop in Hcaps. destruct Hcaps as [Hcc Hct].
+        nest IH Ht2 (proj1 (proj2 Ht2)); [exact Hinc|exact Hcc|]. destruct on as [w1|c1]; [exact I|].
+        destruct P as [_ Hc1]. cbn [OInv] in Hc1.
+        nx IH Ht Hc; [apply SInv_upd_caps; [exact Hs|apply forallb_cons_intro; assumption]|exact Ho].
+    - (* BuildMap *)
+      destruct (pop_n _ (stack s) []) as [[items rest]|] eqn:E; [|exact I].
+      destruct (pop_n_ok _ _ _ _ _ E (si_stack _ Hs) eq_refl) as [Hit Hrest].
+      destruct (build_map_pairs wd items) as [pairs|] eqn:E2; [|exact I].
+      assert (Hm : vok (VMap (map_of_pairs wd pairs)) = true).
+      { rewrite vok_map. apply map_of_pairs_ok. eapply build_map_pairs_ok; [apply le_n|exact E2|exact Hit]. }
+      nx IH Ht Hc; [apply SInv_upd_stack; [exact Hs|apply forallb_cons_intro; assumption]|exact Ho].
+    - (* BuildList *)
+      destruct (pop_n k (stack s) []) as [[items rest]|] eqn:E; [|exact I].
+      destruct (pop_n_ok _ _ _ _ _ E (si_stack _ Hs) eq_refl) as [Hit Hrest].
+      nx IH Ht Hc; [apply SInv_upd_stack; [exact Hs|apply forallb_cons_intro; [rewrite vok_arr; exact Hit|exact Hrest]]|exact Ho].
+    - (* BuildMapWithSpreads *)
+      destruct (build_map_spreads wd (rev fl) (stack s) []) as [[m rest]|] eqn:E; [|exact I].
+      destruct (build_map_spreads_ok _ _ _ _ _ E (si_stack _ Hs) eq_refl) as [Hm Hrest].
+      nx IH Ht Hc; [apply SInv_upd_stack; [exact Hs|apply forallb_cons_intro; [rewrite vok_map; exact Hm|exact Hrest]]|exact Ho].
+    - (* BuildListWithSpreads *)
+      destruct (build_list_spreads (rev fl) (stack s) []) as [[l rest]|] eqn:E; [|exact I].
+      destruct (build_list_spreads_ok _ _ _ _ _ E (si_stack _ Hs) eq_refl) as [Hl Hrest].
+      nx IH Ht Hc; [apply SInv_upd_stack; [exact Hs|apply forallb_cons_intro; [rewrite vok_arr; exact Hl|exact Hrest]]|exact Ho].
+    - (* CallFunction *)
+      destruct (pop1 s) as [[kw s1]|] eqn:Hp; [|exact I]. destruct (pop1_inv _ _ _ Hp Hs) as [Hkw Hs1].
+      destruct (str_eqb n _) eqn:Esuper.
+      + (* super(): mint point; the nested block renders into a fresh buffer with the capture stack detached *)
+        destruct (cur_block s1) as [cb|] eqn:Ecb; [|exact I].
+        match goal with |- post (match ?x with _ => _ end) =>
+          assert (Ex : x = find_block cb (blocks s1) []) by reflexivity; rewrite Ex; clear Ex end.
+        destruct (find_block cb (blocks s1) []) as [[[pre e] post']|] eqn:Ef; [|exact I].
+        destruct e as [[bn lin] lvl].
+        destruct (find_block_ok _ _ _ _ _ Ef (si_blocks _ Hs1)) as (Hpre & Hlin & Hpost). cbn [fst snd] in Hlin.
+        destruct (nth_error lin (S lvl)) as [bchunk|] eqn:En; [|exact I].
+        assert (Hbc : chunk_okP bchunk). { rewrite Forall_forall in Hlin. apply Hlin. eapply nth_error_In, En. }
+        assert (Hbl : forall l, blocks_okP (pre ++ (bn, lin, l) :: post')).
+        { intros l. apply Forall_app. split; [exact Hpre|constructor; [exact Hlin|exact Hpost]]. }
+        nest IH Ht Hbc.
+        * apply SInv_upd_caps; [|reflexivity]. apply SInv_upd_blocks; [exact Hs1|apply Hbl].
+        * reflexivity.
+        * destruct on as [w1|text]; [exact I|]. destruct P as [Hs3 Htext]. cbn [OInv] in Htext.
+          nx IH Ht Hc; [|exact Ho]. apply push_inv; [|exact Htext].
+          apply SInv_upd_caps; [|apply Hs1]. apply SInv_upd_blocks; [exact Hs3|apply Hbl].
+      + destruct (kwargs_of kw) as [k0|] eqn:Ek; [|exact I].
+        destruct (w_function wd n k0 (scope_of s1)) as [[[r|e] sf]|] eqn:Ef; try exact I.
+        nx IH Ht Hc; [apply push_inv; [exact Hs1|eapply (wo_function Hw);
+               [exact Ef|eapply kwargs_of_ok; eassumption|apply scope_of_ok, Hs1]]|exact Ho].
+    - (* RenderInlineComponent: the result is a mint point *)
+      destruct (pop1 s) as [[kw s1]|] eqn:Hp; [|exact I]. destruct (pop1_inv _ _ _ Hp Hs) as [Hkw Hs1].
+      destruct (kwargs_of kw) as [k0|] eqn:Ek; [|repeat dm; exact I].
+      destruct (assoc_get (w_components wd) n) as [[def cchunk]|] eqn:Ecp; [|exact I].
+      destruct (w_build_ctx wd def k0 None) as [cctx|] eqn:Eb; [|exact I].
+      destruct (Nat.ltb (w_max_depth wd) (S depth)); [exact I|].
+      assert (Hcc : ctx_ok cctx = true)
+        by (eapply (wo_build_ctx Hw); [exact Eb|eapply kwargs_of_ok; eassumption|reflexivity]).
+      nest IH Ht (wo_components Hw _ _ _ Ecp); [apply new_state_inv, Hcc|reflexivity|].
+      destruct on as [w1|text]; [exact I|]. destruct P as [_ Htext]. cbn [OInv] in Htext.
+      nx IH Ht Hc; [apply push_inv; assumption|exact Ho].
+    - (* RenderBodyComponent: body.mark_safe() and the result are mint points *)
+      destruct (pop1 s) as [[kw s1]|] eqn:Hp; [|exact I]. destruct (pop1_inv _ _ _ Hp Hs) as [Hkw Hs1].
+      destruct (kwargs_of kw) as [k0|] eqn:Ek; [|repeat dm; exact I].
+      destruct (assoc_get (w_components wd) n) as [[def cchunk]|] eqn:Ecp; [|exact I].
+      destruct (pop1 s1) as [[b s2]|] eqn:Hp2; cbv beta iota; [|exact I].
+      destruct (pop1_inv _ _ _ Hp2 Hs1) as [Hb Hs2].
+      destruct (w_build_ctx wd def k0 (Some (mark_safe b))) as [cctx|] eqn:Eb; [|exact I].
+      destruct (Nat.ltb (w_max_depth wd) (S depth)); [exact I|].
+      assert (Hmb : vok (mark_safe b) = true) by (eapply (Hbp eq_refl); eassumption).
+      assert (Hcc : ctx_ok cctx = true)
+        by (eapply (wo_build_ctx Hw); [exact Eb|eapply kwargs_of_ok; eassumption|exact Hmb]).
+      nest IH Ht (wo_components Hw _ _ _ Ecp); [apply new_state_inv, Hcc|reflexivity|].
+      destruct on as [w1|text]; [exact I|]. destruct P as [_ Htext]. cbn [OInv] in Htext.
+      nx IH Ht Hc; [apply push_inv; assumption|exact Ho].
+    - (* ApplyFilter *)
+      destruct (pop2 s) as [[[v kw] s1]|] eqn:Hp; [|exact I].
+      destruct (pop2_inv _ _ _ _ Hp Hs) as (Hv & Hkw & Hs1).
+      destruct (kwargs_of kw) as [k0|] eqn:Ek; [|exact I].
+      destruct (w_filter wd n v k0 (scope_of s1)) as [[[r|e] sf]|] eqn:Ef; try exact I.
+      nx IH Ht Hc; [apply push_inv; [exact Hs1|eapply (wo_filter Hw);
+             [exact Ef|exact Hv|eapply kwargs_of_ok; eassumption|apply scope_of_ok, Hs1]]|exact Ho].
+    - (* RunTest *)
+      destruct (pop2 s) as [[[v kw] s1]|] eqn:Hp; [|exact I].
+      destruct (pop2_inv _ _ _ _ Hp Hs) as (Hv & Hkw & Hs1).
+      simple_case IH Ht Hc Ho.
+    - (* RenderBlock *)
+      destruct (assoc_get (t_lineage tpl) n) as [[|bchunk lin_rest]|] eqn:El; try exact I.
+      pose proof (proj2 (proj2 (proj2 Ht)) _ _ El) as Hl.
+      assert (Hbc : chunk_okP bchunk) by (inversion Hl; assumption).
+      assert (Hs1 : SInv (upd_blocks s ((n, bchunk :: lin_rest, 0) :: blocks s) (Some n))).
+      { apply SInv_upd_blocks; [exact Hs|constructor; [exact Hl|apply Hs]]. }
+      dm.
+      + nest IH Ht Hbc; [exact Hs1|reflexivity|]. destruct on as [w1|text]; [exact I|].
+        destruct P as [Hs2 Htext]. cbn [OInv] in Htext.
+        nx IH Ht Hc; [apply SInv_upd_block_buffer; [apply SInv_upd_blocks; [exact Hs2|apply blocks_tl, Hs2]|exact Htext]|exact Ho].
+      + nest IH Ht Hbc; [exact Hs1|exact Ho|]. destruct P as [Hs2 Ho2].
+        nx IH Ht Hc; [apply SInv_upd_blocks; [exact Hs2|apply blocks_tl, Hs2]|exact Ho2].
+    - (* Jump *) nx IH Ht Hc; assumption.
+    - (* PopJumpIfFalse *)
+      destruct (pop1 s) as [[v s1]|] eqn:Hp; [|exact I]. destruct (pop1_inv _ _ _ Hp Hs) as [Hv Hs1].
+      destruct (is_truthy v); nx IH Ht Hc; assumption.
+    - (* JumpIfFalseOrPop *)
+      destruct (pop1 s) as [[v s1]|] eqn:Hp; [|exact I]. destruct (pop1_inv _ _ _ Hp Hs) as [Hv Hs1].
+      destruct (is_truthy v); nx IH Ht Hc; assumption.
+    - (* JumpIfTrueOrPop *)
+      destruct (pop1 s) as [[v s1]|] eqn:Hp; [|exact I]. destruct (pop1_inv _ _ _ Hp Hs) as [Hv Hs1].
+      destruct (is_truthy v); nx IH Ht Hc; assumption.
+    - (* Capture *)
+      nx IH Ht Hc; [apply SInv_upd_caps; [exact Hs|apply forallb_cons_intro; [reflexivity|apply Hs]]|exact Ho].
+    - (* EndCapture: mint point; the buffer is clean by the invariant *)
+      destruct (caps s) as [|c ct] eqn:Ec; [exact I|].
+      pose proof (si_caps _ Hs) as Hcaps. rewrite Ec in Hcaps. cbn [forallb] in Hcaps.
+      apply andb_prop in Hcaps. destruct Hcaps as [Hcc Hct].
+      nx IH Ht Hc; [apply push_inv; [apply SInv_upd_caps; assumption|exact Hcc]|exact Ho].
+    - (* StartIterate *)
+      destruct (pop1 s) as [[v s1]|] eqn:Hp; [|exact I]. destruct (pop1_inv _ _ _ Hp Hs) as [Hv Hs1].
+      destruct (iter_items v) as [items|] eqn:Ei; [|exact I].
+      dm; [exact I|].
+      nx IH Ht Hc; [apply SInv_upd_loops; [exact Hs1|apply forallb_cons_intro;
+             [apply new_loop_ok; eapply iter_items_ok; eassumption|apply Hs1]]|exact Ho].
+    - (* StartIterateComprehension *)
+      destruct (pop1 s) as [[v s1]|] eqn:Hp; [|exact I]. destruct (pop1_inv _ _ _ Hp Hs) as [Hv Hs1].
+      destruct (iter_items v) as [items|] eqn:Ei; [|exact I].
+      dm; [exact I|].
+      nx IH Ht Hc; [apply SInv_upd_loops; [exact Hs1|apply forallb_cons_intro;
+             [apply new_loop_ok; eapply iter_items_ok; eassumption|apply Hs1]]|exact Ho].
+    - (* Iterate *)
+      destruct (loops s) as [|fr rest] eqn:El; [nx IH Ht Hc; assumption|].
+      pose proof (si_loops _ Hs) as Hl. rewrite El in Hl. cbn [forallb] in Hl.
+      apply andb_prop in Hl. destruct Hl as [Hfr Hrest].
+      destruct (lf_rest fr); [nx IH Ht Hc; assumption|].
+      nx IH Ht Hc; [apply SInv_upd_loops; [exact Hs|apply forallb_cons_intro; [apply lf_advance_ok, Hfr|exact Hrest]]|exact Ho].
+    - (* StoreLocal *)
+      destruct (loops s) as [|fr rest] eqn:El; [nx IH Ht Hc; assumption|].
+      pose proof (si_loops _ Hs) as Hl. rewrite El in Hl. cbn [forallb] in Hl.
+      apply andb_prop in Hl. destruct Hl as [Hfr Hrest].
+      nx IH Ht Hc; [apply SInv_upd_loops; [exact Hs|apply forallb_cons_intro; [apply lf_store_local_ok, Hfr|exact Hrest]]|exact Ho].
+    - (* StoreDidNotIterate *)
+      destruct (loops s) as [|fr rest] eqn:El; [nx IH Ht Hc; assumption|].
+      nx IH Ht Hc; [apply push_inv; [exact Hs|reflexivity]|exact Ho].
+    - (* Break *)
+      destruct (loops s) as [|fr rest] eqn:El; nx IH Ht Hc; assumption.
+    - (* PopLoop *)
+      nx IH Ht Hc; [apply SInv_upd_loops; [exact Hs|apply forallb_tl, Hs]|exact Ho].
+    - (* AppendToList *)
+      destruct (stack s) as [|v [|l t]] eqn:Est; try exact I. destruct l as [| | | | | |l| |]; try exact I.
+      pose proof (si_stack _ Hs) as Hst. rewrite Est in Hst. cbn [forallb] in Hst.
+      apply andb_prop in Hst; destruct Hst as [Hv Hst]. apply andb_prop in Hst; destruct Hst as [Hl Hrest].
+      nx IH Ht Hc; [apply SInv_upd_stack; [exact Hs|apply forallb_cons_intro; [|exact Hrest]]|exact Ho].
+      rewrite vok_arr in *. rewrite forallb_app, Hl. cbn. rewrite Hv. reflexivity.
+    - (* Mul *) destruct (pop2 s) as [[[a b] s1]|] eqn:Hp; [|exact I].
+      destruct (pop2_inv _ _ _ _ Hp Hs) as (Ha & Hb & Hs1). simple_case IH Ht Hc Ho.
+    - (* Div *) destruct (pop2 s) as [[[a b] s1]|] eqn:Hp; [|exact I].
+      destruct (pop2_inv _ _ _ _ Hp Hs) as (Ha & Hb & Hs1). simple_case IH Ht Hc Ho.
+    - (* FloorDiv *) destruct (pop2 s) as [[[a b] s1]|] eqn:Hp; [|exact I].
+      destruct (pop2_inv _ _ _ _ Hp Hs) as (Ha & Hb & Hs1). simple_case IH Ht Hc Ho.
+    - (* Mod *) destruct (pop2 s) as [[[a b] s1]|] eqn:Hp; [|exact I].
+      destruct (pop2_inv _ _ _ _ Hp Hs) as (Ha & Hb & Hs1). simple_case IH Ht Hc Ho.
+    - (* Plus *) destruct (pop2 s) as [[[a b] s1]|] eqn:Hp; [|exact I].
+      destruct (pop2_inv _ _ _ _ Hp Hs) as (Ha & Hb & Hs1). simple_case IH Ht Hc Ho.
+    - (* Minus *) destruct (pop2 s) as [[[a b] s1]|] eqn:Hp; [|exact I].
+      destruct (pop2_inv _ _ _ _ Hp Hs) as (Ha & Hb & Hs1). simple_case IH Ht Hc Ho.
+    - (* Power *) destruct (pop2 s) as [[[a b] s1]|] eqn:Hp; [|exact I].
+      destruct (pop2_inv _ _ _ _ Hp Hs) as (Ha & Hb & Hs1). simple_case IH Ht Hc Ho.
+    - (* LessThan *) destruct (pop2 s) as [[[a b] s1]|] eqn:Hp; [|exact I].
+      destruct (pop2_inv _ _ _ _ Hp Hs) as (Ha & Hb & Hs1). simple_case IH Ht Hc Ho.
+    - (* GreaterThan *) destruct (pop2 s) as [[[a b] s1]|] eqn:Hp; [|exact I].
+      destruct (pop2_inv _ _ _ _ Hp Hs) as (Ha & Hb & Hs1). simple_case IH Ht Hc Ho.
+    - (* LessThanOrEqual *) destruct (pop2 s) as [[[a b] s1]|] eqn:Hp; [|exact I].
+      destruct (pop2_inv _ _ _ _ Hp Hs) as (Ha & Hb & Hs1). simple_case IH Ht Hc Ho.
+    - (* GreaterThanOrEqual *) destruct (pop2 s) as [[[a b] s1]|] eqn:Hp; [|exact I].
+      destruct (pop2_inv _ _ _ _ Hp Hs) as (Ha & Hb & Hs1). simple_case IH Ht Hc Ho.
+    - (* Equal *) destruct (pop2 s) as [[[a b] s1]|] eqn:Hp; [|exact I].
+      destruct (pop2_inv _ _ _ _ Hp Hs) as (Ha & Hb & Hs1). simple_case IH Ht Hc Ho.
+    - (* NotEqual *) destruct (pop2 s) as [[[a b] s1]|] eqn:Hp; [|exact I].
+      destruct (pop2_inv _ _ _ _ Hp Hs) as (Ha & Hb & Hs1). simple_case IH Ht Hc Ho.
+    - (* StrConcat: the result is a Normal string whatever the operands *)
+      destruct (pop2 s) as [[[a b] s1]|] eqn:Hp; [|exact I].
+      destruct (pop2_inv _ _ _ _ Hp Hs) as (Ha & Hb & Hs1).
+      nx IH Ht Hc; [apply push_inv; [exact Hs1|reflexivity]|exact Ho].
+    - (* InOp *) destruct (pop2 s) as [[[a b] s1]|] eqn:Hp; [|exact I].
+      destruct (pop2_inv _ _ _ _ Hp Hs) as (Ha & Hb & Hs1). simple_case IH Ht Hc Ho.
+    - (* Not *)
+      destruct (pop1 s) as [[v s1]|] eqn:Hp; [|exact I]. destruct (pop1_inv _ _ _ Hp Hs) as [Hv Hs1]. simple_case IH Ht Hc Ho.
+    - (* Negative *)
+      destruct (pop1 s) as [[v s1]|] eqn:Hp; [|exact I]. destruct (pop1_inv _ _ _ Hp Hs) as [Hv Hs1]. simple_case IH Ht Hc Ho.
+    - (* LoadPath *)
+      destruct (load_path_v wd s p) as [v|] eqn:E; [|exact I].
+      nx IH Ht Hc; [apply push_inv; [exact Hs|eapply load_path_v_ok; eassumption]|exact Ho].
+    - (* WritePath *)
+      destruct (write_path_v wd s p) as [v|] eqn:E; [|exact I].
+      destruct (write_value W wr wd true s o v) as [[s1 o1]|] eqn:Ew; [|exact I].
+      destruct (write_value_inv _ _ _ _ _ Ew Hs Ho (write_path_v_ok _ _ _ E Hs)) as [Hs1 Ho1]. nx IH Ht Hc; assumption.
+  Qed.
+
+  Theorem run_inv : forall fuel, IHf fuel.
+  Proof.
+    induction fuel as [|f IH]; [|apply step_inv, IH].
+    intros tpl depth ch ip s o _ _ _ _. exact I.
+  Qed.
+
 End Inv.
+
+(* the entry points: render / render_block (no autoescape override: the name suffix decides) *)
+Theorem render_to_inv W wr wd ok (Wok : W -> Prop) :
+  world_ok wd ok None ->
+  (forall w t w', wr w t = Some w' -> Wok w -> clean ok t = true -> Wok w') ->
+  forall fuel tpl block c g w,
+  tpl_okP wd ok None tpl -> ctx_ok ok c = true -> ctx_ok ok g = true -> Wok w ->
+  match render_to W wr wd fuel tpl block c g w with
+  | RDone _ (SinkTop w') => Wok w'
+  | RDone _ (SinkBuf b) => clean ok b = true
+  | _ => True
+  end.
+Proof.
+  intros Hw Hwr fuel tpl block c g w Ht Hc Hg Hw0. unfold render_to.
+  match goal with |- context [run W wr wd fuel tpl None 0 (t_root_chunk tpl) 0 ?s0 _] => set (s0' := s0) end.
+  assert (Hs0 : SInv wd ok s0'). { constructor; cbn; try reflexivity; [constructor|exact Hc|exact Hg]. }
+  destruct block as [b|].
+  - pose proof (run_inv W wr wd ok Wok None Hw Hwr fuel tpl 0 (t_root_chunk tpl) 0 s0' (SinkBuf [])
+                  Ht (proj1 (proj2 (proj2 Ht))) Hs0 eq_refl) as P.
+    destruct (run W wr wd fuel tpl None 0 (t_root_chunk tpl) 0 s0' (SinkBuf [])) as [s1 o1| |]; try exact I.
+    destruct P as [Hs1 _].
+    destruct (wr w (block_buffer s1)) as [w1|] eqn:Ew; [|exact I].
+    eapply Hwr; [exact Ew|exact Hw0|apply Hs1].
+  - pose proof (run_inv W wr wd ok Wok None Hw Hwr fuel tpl 0 (t_root_chunk tpl) 0 s0' (SinkTop w)
+                  Ht (proj1 (proj2 (proj2 Ht))) Hs0 Hw0) as P.
+    destruct (run W wr wd fuel tpl None 0 (t_root_chunk tpl) 0 s0' (SinkTop w)) as [s1 [w1|b1]| |]; try exact I; apply P.
+Qed.
